@@ -16,6 +16,10 @@ import Poulpy.Lemmas.EpNorm
 import Poulpy.Lemmas.GadgetCore
 import Poulpy.Lemmas.ValBridge
 import Poulpy.Lemmas.AccAdd
+import Poulpy.Lemmas.EpTotal
+import Poulpy.Lemmas.CswapTotal
+import Poulpy.Lemmas.HeadRoom
+import Poulpy.Lemmas.ExpandTotal
 import Poulpy.Lemmas.MulNorm
 
 /-!
@@ -44,7 +48,7 @@ Layers
 -/
 
 namespace C04
-open Hal Core
+open Hal Core KsDec
 
 /-- **Layer A.**  Phase of a vector-matrix product (`limb_offset = 0`, result of `S` limbs ×
 `cols` columns, `cols = rank + 1 = sk.length + 1`): limb `l` of the phase of `a · M` is
@@ -755,12 +759,12 @@ example (s : List Poly) :
 
 /-! ## Composed statement: the result ciphertext decrypts to `m2 · phase(a)` plus explicit terms, one value domain -/
 
-/-- **`ep_decrypts`** — `glwe_external_product` (every `dsize ≥ 1`, every rank, same or different radices), `ep_executed_identity` and
+/-- **`ep_decrypts_modulo_norm`** — `glwe_external_product` (every `dsize ≥ 1`, every rank, same or different radices), `ep_executed_identity` and
 `ep_result_phase_modulo_norm` composed in `R N = ℤ[X]/(X^N+1)` with `β = 2^{base2k(ggsw)}` (`Lemmas/ValBridge.lean`): `A · phase(result)` equals
 `B · (m2·Σ_i σ_i·usedVal(a_i) + Σ_i(Σ_r digit·E − dropped − β^S·head))` plus the normalisation error `E₀ + Σ s_i E_{i+1}`, where `(A, B, En)` is the
 C08 kernel's value relation on each accumulator column (`hK`; `ep_result_coeff_same_radix` gives it outright per coefficient for equal radices).
 Each cell of GGSW × GGLWE / GGSW × GGSW is this statement. -/
-theorem ep_decrypts {N : Nat} (big128 : Bool) (rb rs ab : Nat) (a aConv res : List Col) (g : EpGGSW) (sk : List Poly)
+theorem ep_decrypts_modulo_norm {N : Nat} (big128 : Bool) (rb rs ab : Nat) (a aConv res : List Col) (g : EpGGSW) (sk : List Poly)
     (hg : (g.n == N && g.wf && shapeOk N (g.rank + 1) (a.getD 0 []).length a) = true)
     (hc : epConvert N a ab g = some aConv)
     (hok : glweExternalProduct big128 N rb rs a ab g = .ok res)
@@ -831,7 +835,7 @@ example (m2 : Ks.R 1) (σ : ℕ → Ks.R 1) :
               - ((2 : Ks.R 1) ^ staleG.base2k) ^ staleG.size * Gadget.head ((2 : Ks.R 1) ^ staleG.base2k) staleG.dsize staleG.dnum (([[[1], [2], [3]], [[0], [1], [0]]] : List Col).getD 0 []).length
                   (Ks.inLimb 1 (mkBuf staleG.n (staleG.rank + 1) (([[[1], [2], [3]], [[0], [1], [0]]] : List Col).getD 0 []).length [[[1], [2], [3]], [[0], [1], [0]]]) i) (Ks.keyPhase 1 [[1]] staleG.toPMat i)))
         + Ks.ι 1 (C02L.errTo (min staleG.rank ([[1]] : List Poly).length) [[1]] (fun _ => [0])) :=
-  ep_decrypts (N := 1) false 4 4 4 [[[1], [2], [3]], [[0], [1], [0]]] [[[1], [2], [3]], [[0], [1], [0]]]
+  ep_decrypts_modulo_norm (N := 1) false 4 4 4 [[[1], [2], [3]], [[0], [1], [0]]] [[[1], [2], [3]], [[0], [1], [0]]]
     [[[3], [0], [0], [0]], [[0], [0], [0], [0]]] staleG [[1]] (by decide) (by decide) (by decide) 1 1 (fun _ => [0]) (fun _ => rfl)
     (by decide) (by decide)
     (by
@@ -851,13 +855,13 @@ example (m2 : Ks.R 1) (σ : ℕ → Ks.R 1) :
 instance (c : Col) : Decidable (C02L.ColSmall c) := by unfold C02L.ColSmall C02L.PolySmall; infer_instance
 instance (N : Nat) (c : Col) : Decidable (C02L.LimbsN N c) := by unfold C02L.LimbsN; infer_instance
 
-/-- **`cmux_decrypts`** — `Cmux::cmux` on the i64 accumulator (FFT64 back ends), every `dsize ≥ 1`, every rank: one composed statement.  With
+/-- **`cmux_decrypts_modulo_norm`** — `Cmux::cmux` on the i64 accumulator (FFT64 back ends), every `dsize ≥ 1`, every rank: one composed statement.  With
 the no-overflow lemma `Core.bigAddSmallAssign_exact` (2^62 head-room on the product and on `f`, `Lemmas/AccAdd.lean`) the accumulator is the exact
 limb-wise sum `P + fit(f)`, the phase value is additive (`ι_valP_phase_add`), `P = epInternal (t − f)` has the value of `ep_executed_identity`, and the
 final normalisation contributes the kernel relation `(A, B, En)`:
 `A·phase(res) = B·(m2·Σ_i σ_i·usedVal((t−f)_i) + Σ_i(Σ_r digit·E − dropped − β^S·head) + phase(f at S limbs)) + (E₀ + Σ s_i E_{i+1})` —
 `m2 = 0` gives `f`, `m2 = 1` gives `t` up to the gadget's dropped limbs (`cmux_selects` is the algebraic form). -/
-theorem cmux_decrypts {N : Nat} (rb rs : Nat) (t f res : List Col) (g : EpGGSW) (res0 tmp0 : List Col) (sk : List Poly)
+theorem cmux_decrypts_modulo_norm {N : Nat} (rb rs : Nat) (t f res : List Col) (g : EpGGSW) (res0 tmp0 : List Col) (sk : List Poly)
     (hg : (g.n == N && g.wf && rb == g.base2k && shapeOk N (g.rank + 1) (t.getD 0 []).length t
        && shapeOk N (g.rank + 1) (f.getD 0 []).length f) = true)
     (hok : cmux false N rb rs t f g res0 tmp0 = .ok res)
@@ -978,7 +982,7 @@ example (m2 : Ks.R 1) (σ : ℕ → Ks.R 1) :
           + Ks.ι 1 (C02L.valP staleG.base2k 1 (Core.Ops.phase [[1]] (Ks.mkCt staleG.base2k 1
               ((List.range (staleG.rank + 1)).map (fun j => C02L.fit 1 staleG.size (([[[0], [0], [1]], [[0], [0], [0]]] : List Col).getD j [])))))))
         + Ks.ι 1 (C02L.errTo (min staleG.rank ([[1]] : List Poly).length) [[1]] (fun _ => [0])) :=
-  cmux_decrypts (N := 1) 4 3 ([[[1], [2], [3]], [[0], [1], [0]]] : List Col) ([[[0], [0], [1]], [[0], [0], [0]]] : List Col) [[[2], [0], [1]], [[0], [0], [0]]] staleG (zeroCols 1 2 4) (zeroCols 1 2 4) [[1]]
+  cmux_decrypts_modulo_norm (N := 1) 4 3 ([[[1], [2], [3]], [[0], [1], [0]]] : List Col) ([[[0], [0], [1]], [[0], [0], [0]]] : List Col) [[[2], [0], [1]], [[0], [0], [0]]] staleG (zeroCols 1 2 4) (zeroCols 1 2 4) [[1]]
     (by decide) (by decide) 16 1 (fun _ => [0]) (fun _ => rfl)
     (by decide) (by decide) (by decide) (by decide) (by decide)
     (by
@@ -995,4 +999,333 @@ example (m2 : Ks.R 1) (σ : ℕ → Ks.R 1) :
                     - m2 * σ i * ((2 : Ks.R 1) ^ staleG.base2k) ^ (staleG.size - (r + 1) * staleG.dsize))
     (by decide) (by decide) rfl (by decide) (by decide) (by decide) (Ks.entry_length staleG.toPMat 1 rfl (by decide)) (by decide)
     (by intro i _ r _; exact (add_sub_cancel _ _).symm)
+/-! ## Unconditional composed statements: every kernel hypothesis discharged by C08's total value theorems -/
+
+/-- **`ep_decrypts`** — `glwe_external_product`, END TO END on the executed model, every `dsize ≥ 1`, every rank, ANY pair of radices `1..62`,
+`i64` (FFT64) and `i128` (NTT120) accumulators.  The only analytic hypothesis is the accumulator head-room `|acc| ≤ H`, `H + 8 ≤ 2^62` resp. `2^126`
+(derived from digit bounds by `ep_headroom`).  The call returns a well-formed ciphertext with digits `≤ 2^rb − 1`, and in `ℤ[X]/(X^N+1)`
+`2^(bg·S)·phase(res) = 2^(rb·rs)·(m2·Σ_i σ_i·usedVal(a_i) + Σ_i(Σ_r digit·E − dropped − β^S·head)) + En + 2^(rb·rs+bg·S)·Q` with
+`‖En‖_∞ ≤ (1 + Σ‖s_i‖₁)·normTol`: at most one unit of the result's last limb per column, `0` (exact) when `bg·S ≤ rb·rs`
+(`C08.normalize_value_offset0`, `C08.big_normalize128_value_offset0` through `Core.norm_total_rows`). -/
+theorem ep_decrypts {N : Nat} (big128 : Bool) (rb rs ab : Nat) (a aConv : List Col) (g : EpGGSW) (sk : List Poly) (H : Int)
+    (hg : (g.n == N && g.wf && shapeOk N (g.rank + 1) (a.getD 0 []).length a) = true)
+    (hc : epConvert N a ab g = some aConv)
+    (hrb1 : 1 ≤ rb) (hrb : rb ≤ 62) (hgb1 : 1 ≤ g.base2k) (hgb : g.base2k ≤ 62)
+    (hH0 : 0 ≤ H) (hH : H + 8 ≤ 2 ^ (bitsOf big128 - 2))
+    (hacc : ∀ c ∈ epInternal aConv g (zeroCols N (g.rank + 1) g.size) (zeroCols N (g.rank + 1) g.size), ∀ l ∈ c, ∀ x ∈ l, |x| ≤ H)
+    (m2 : Ks.R N) (σ : ℕ → Ks.R N) (E : ℕ → ℕ → Ks.R N)
+    (hd : 1 ≤ g.dsize) (hN : 0 < N) (hn : g.n = N)
+    (haC : shapeOk g.n (g.rank + 1) (aConv.getD 0 []).length aConv = true)
+    (hM : ∀ j q, (g.toPMat.entry j q).length = N) (hS : g.dnum * g.dsize ≤ g.size)
+    (hkey : ∀ i, i < g.rank + 1 → ∀ r, r < g.dnum →
+      Gadget.val ((2 : Ks.R N) ^ g.base2k) g.size (Ks.keyPhase N sk g.toPMat i r)
+        = m2 * σ i * ((2 : Ks.R N) ^ g.base2k) ^ (g.size - (r + 1) * g.dsize) + E i r) :
+    ∃ res, glweExternalProduct big128 N rb rs a ab g = .ok res ∧ C02L.GWF N (Ks.mkCt rb N res) ∧
+      (∀ c ∈ res, ∀ l ∈ c, ∀ x ∈ l, |x| ≤ 2 ^ rb - 1) ∧
+      ∃ En Q : Poly, En.length = N ∧ Q.length = N ∧
+        normInf En ≤ (1 + C02L.snorm (min g.rank sk.length) sk) * C02.normTol (rb * rs) (g.base2k * g.size) ∧
+        (2 : Ks.R N) ^ (g.base2k * g.size) * Ks.ι N (C02L.valP rb N (Core.Ops.phase sk (Ks.mkCt rb N res)))
+          = (2 : Ks.R N) ^ (rb * rs) * (m2 * ∑ i ∈ Finset.range (g.rank + 1),
+              σ i * Gadget.usedVal ((2 : Ks.R N) ^ g.base2k) g.size g.dsize g.dnum (aConv.getD 0 []).length
+                (Ks.inLimb N (mkBuf g.n (g.rank + 1) (aConv.getD 0 []).length aConv) i)
+            + ∑ i ∈ Finset.range (g.rank + 1),
+              (∑ r ∈ Finset.range g.dnum,
+                  Gadget.digit ((2 : Ks.R N) ^ g.base2k) g.dsize g.dnum (aConv.getD 0 []).length
+                    (Ks.inLimb N (mkBuf g.n (g.rank + 1) (aConv.getD 0 []).length aConv) i) r * E i r
+                - Gadget.dropped ((2 : Ks.R N) ^ g.base2k) g.size g.dsize g.dnum (aConv.getD 0 []).length
+                    (Ks.inLimb N (mkBuf g.n (g.rank + 1) (aConv.getD 0 []).length aConv) i) (Ks.keyPhase N sk g.toPMat i)
+                - ((2 : Ks.R N) ^ g.base2k) ^ g.size * Gadget.head ((2 : Ks.R N) ^ g.base2k) g.dsize g.dnum (aConv.getD 0 []).length
+                    (Ks.inLimb N (mkBuf g.n (g.rank + 1) (aConv.getD 0 []).length aConv) i) (Ks.keyPhase N sk g.toPMat i)))
+            + Ks.ι N En + (2 : Ks.R N) ^ (rb * rs + g.base2k * g.size) * Ks.ι N Q := by
+  have hz : shapeOk g.n (g.rank + 1) g.size (zeroCols N (g.rank + 1) g.size) = true := by rw [hn]; exact zeroCols_shape _ _ _
+  have hwf := epInternal_wf N aConv g _ _ hd hn haC hz hz hM
+  have hlen := epInternal_length aConv g (zeroCols N (g.rank + 1) g.size) (zeroCols N (g.rank + 1) g.size)
+  have hne : epInternal aConv g (zeroCols N (g.rank + 1) g.size) (zeroCols N (g.rank + 1) g.size) ≠ [] := by
+    intro h; rw [h] at hlen; simp at hlen
+  obtain ⟨cs, h1, h2, h3, h4, h5⟩ := norm_total_rows big128 N rb rs g.base2k g.size 0 H _ hN hrb1 hrb hgb1 hgb hH0 hH hne hwf hacc
+  have hcsne : cs ≠ [] := by
+    intro h; rw [h, hlen] at h2; simp at h2
+  refine ⟨cs, ?_, (gwf_mk (N := N) rb rs cs hcsne h3).1, h4, ?_⟩
+  · rw [glweExternalProduct_accumulator big128 N rb rs a ab g aConv hg hc]
+    show optOutcome ((epInternal aConv g _ _).mapM (fun c => bigNormalizeOff big128 N rb rs 0 c g.base2k)) = _
+    rw [h1]; rfl
+  · obtain ⟨En, Q, hE, hQ, hnm, he⟩ := h5 sk
+    rw [hlen, normTolOff_zero] at hnm
+    refine ⟨En, Q, hE, hQ, by simpa using hnm, ?_⟩
+    have h3' := ep_executed_identity N sk aConv g _ _ ((2 : Ks.R N) ^ g.base2k) m2 σ E hd hN hn haC hz hz hM hS hkey
+    rw [h3'] at he
+    simpa using he
+
+example (m2 : Ks.R 1) (σ : ℕ → Ks.R 1) :
+    ∃ res, glweExternalProduct false 1 4 4 [[[1], [2], [3]], [[0], [1], [0]]] 4 staleG = .ok res ∧ C02L.GWF 1 (Ks.mkCt 4 1 res) := by
+  obtain ⟨res, h1, h2, _⟩ := ep_decrypts (N := 1) false 4 4 4 [[[1], [2], [3]], [[0], [1], [0]]] [[[1], [2], [3]], [[0], [1], [0]]] staleG [[1]]
+    (2 ^ 61) (by decide) (by decide) (by decide) (by decide) (by decide) (by decide) (by decide) (by decide) (by decide)
+    m2 σ (fun i r => Gadget.val ((2 : Ks.R 1) ^ staleG.base2k) staleG.size (Ks.keyPhase 1 [[1]] staleG.toPMat i r)
+                    - m2 * σ i * ((2 : Ks.R 1) ^ staleG.base2k) ^ (staleG.size - (r + 1) * staleG.dsize))
+    (by decide) (by decide) rfl (by decide) (Ks.entry_length staleG.toPMat 1 rfl (by decide)) (by decide)
+    (by intro i _ r _; exact (add_sub_cancel _ _).symm)
+  exact ⟨res, h1, h2⟩
+
+/-- **`cmux_decrypts`** — `Cmux::cmux`, END TO END, both accumulator widths, every `dsize ≥ 1`, every rank: the call returns and satisfies
+`Core.CmuxSpec` with `d = t − f` (`glwe_sub`) and the added operand `f`:
+`2^(bg·S)·phase(res) = 2^(rb·rs)·(m2·Σσ_i·usedVal(d_i) + Σ(Σ_r digit·E − dropped − β^S·head) + phase(f)) + En + 2^(…)·Q`,
+`‖En‖_∞ ≤ (1 + Σ‖s_i‖₁)·normTol`.  Hypotheses: entry guard, head-room `|product| ≤ X`, `|f| ≤ Y`, `X + Y + 8 ≤ 2^62 / 2^126`, key relation. -/
+theorem cmux_decrypts {N : Nat} (big128 : Bool) (rb rs : Nat) (t f : List Col) (g : EpGGSW) (res0 tmp0 : List Col) (sk : List Poly)
+    (X Y : Int)
+    (hg : (g.n == N && g.wf && rb == g.base2k && shapeOk N (g.rank + 1) (t.getD 0 []).length t
+       && shapeOk N (g.rank + 1) (f.getD 0 []).length f) = true)
+    (hgb1 : 1 ≤ g.base2k) (hgb : g.base2k ≤ 62)
+    (hX0 : 0 ≤ X) (hY0 : 0 ≤ Y) (hH : X + Y + 8 ≤ 2 ^ (bitsOf big128 - 2))
+    (hPb : ∀ c ∈ epInternal (glweSubSameRank N rs t f) g res0 tmp0, ∀ l ∈ c, ∀ x ∈ l, |x| ≤ X)
+    (hfb : ∀ c ∈ f, ∀ l ∈ c, ∀ x ∈ l, |x| ≤ Y)
+    (m2 : Ks.R N) (σ : ℕ → Ks.R N) (E : ℕ → ℕ → Ks.R N)
+    (hd : 1 ≤ g.dsize) (hN : 0 < N) (hn : g.n = N)
+    (haD : shapeOk g.n (g.rank + 1) ((glweSubSameRank N rs t f).getD 0 []).length (glweSubSameRank N rs t f) = true)
+    (h0 : shapeOk g.n (g.rank + 1) g.size res0 = true) (ht : shapeOk g.n (g.rank + 1) g.size tmp0 = true)
+    (hM : ∀ j q, (g.toPMat.entry j q).length = N) (hS : g.dnum * g.dsize ≤ g.size)
+    (hkey : ∀ i, i < g.rank + 1 → ∀ r, r < g.dnum →
+      Gadget.val ((2 : Ks.R N) ^ g.base2k) g.size (Ks.keyPhase N sk g.toPMat i r)
+        = m2 * σ i * ((2 : Ks.R N) ^ g.base2k) ^ (g.size - (r + 1) * g.dsize) + E i r) :
+    ∃ res, cmux big128 N rb rs t f g res0 tmp0 = .ok res ∧ CmuxSpec N rb rs g sk m2 σ E (glweSubSameRank N rs t f) f res := by
+  have hg' := hg
+  simp only [Bool.and_eq_true, beq_iff_eq] at hg'
+  obtain ⟨⟨⟨⟨_, _⟩, hrb⟩, _⟩, hfs⟩ := hg'
+  obtain ⟨res, h1, h2⟩ := cmuxTail_total big128 rb rs (glweSubSameRank N rs t f) f g res0 tmp0 sk X Y hrb hgb1 hgb hX0 hY0 hH hPb
+    (shapeOk_limbs N _ _ f hfs) hfb m2 σ E hd hN hn haD h0 ht hM hS hkey
+  refine ⟨res, ?_, h2⟩
+  unfold cmux
+  simp only [hg, Bool.not_true, Bool.false_eq_true, if_false]
+  exact h1
+
+example (m2 : Ks.R 1) (σ : ℕ → Ks.R 1) : ∃ res, cmux true 1 4 3 ([[[1], [2], [3]], [[0], [1], [0]]] : List Col) ([[[0], [0], [1]], [[0], [0], [0]]] : List Col) staleG (zeroCols 1 2 4) (zeroCols 1 2 4) = .ok res ∧ C02L.GWF 1 (Ks.mkCt 4 1 res) := by
+  obtain ⟨res, h1, h2, _⟩ := cmux_decrypts (N := 1) true 4 3 ([[[1], [2], [3]], [[0], [1], [0]]] : List Col) ([[[0], [0], [1]], [[0], [0], [0]]] : List Col) staleG (zeroCols 1 2 4) (zeroCols 1 2 4) [[1]] (2 ^ 60) (2 ^ 60)
+    (by decide) (by decide) (by decide) (by decide) (by decide) (by decide) (by decide) (by decide)
+    m2 σ (fun i r => Gadget.val ((2 : Ks.R 1) ^ staleG.base2k) staleG.size (Ks.keyPhase 1 [[1]] staleG.toPMat i r)
+                    - m2 * σ i * ((2 : Ks.R 1) ^ staleG.base2k) ^ (staleG.size - (r + 1) * staleG.dsize))
+    (by decide) (by decide) rfl (by decide) (by decide) (by decide) (Ks.entry_length staleG.toPMat 1 rfl (by decide)) (by decide)
+    (by intro i _ r _; exact (add_sub_cancel _ _).symm)
+  exact ⟨res, h1, h2⟩
+
+/-- **`cmux_assign_decrypts`** — `Cmux::cmux_assign(res, a, s)`: `d = res − a` (`glwe_sub_assign`, common limbs), added operand `a`. -/
+theorem cmux_assign_decrypts {N : Nat} (big128 : Bool) (rb : Nat) (r a : List Col) (g : EpGGSW) (res0 tmp0 : List Col) (sk : List Poly)
+    (X Y : Int)
+    (hg : (g.n == N && g.wf && rb == g.base2k && shapeOk N (g.rank + 1) (r.getD 0 []).length r
+       && shapeOk N (g.rank + 1) (a.getD 0 []).length a) = true)
+    (hgb1 : 1 ≤ g.base2k) (hgb : g.base2k ≤ 62)
+    (hX0 : 0 ≤ X) (hY0 : 0 ≤ Y) (hH : X + Y + 8 ≤ 2 ^ (bitsOf big128 - 2))
+    (hPb : ∀ c ∈ epInternal ((List.range (g.rank + 1)).map (fun i => vecSubAssignW w64 (r.getD i []) (a.getD i []))) g res0 tmp0,
+      ∀ l ∈ c, ∀ x ∈ l, |x| ≤ X)
+    (hab : ∀ c ∈ a, ∀ l ∈ c, ∀ x ∈ l, |x| ≤ Y)
+    (m2 : Ks.R N) (σ : ℕ → Ks.R N) (E : ℕ → ℕ → Ks.R N)
+    (hd : 1 ≤ g.dsize) (hN : 0 < N) (hn : g.n = N)
+    (haD : shapeOk g.n (g.rank + 1) (((List.range (g.rank + 1)).map (fun i => vecSubAssignW w64 (r.getD i []) (a.getD i []))).getD 0 []).length
+      ((List.range (g.rank + 1)).map (fun i => vecSubAssignW w64 (r.getD i []) (a.getD i []))) = true)
+    (h0 : shapeOk g.n (g.rank + 1) g.size res0 = true) (ht : shapeOk g.n (g.rank + 1) g.size tmp0 = true)
+    (hM : ∀ j q, (g.toPMat.entry j q).length = N) (hS : g.dnum * g.dsize ≤ g.size)
+    (hkey : ∀ i, i < g.rank + 1 → ∀ r, r < g.dnum →
+      Gadget.val ((2 : Ks.R N) ^ g.base2k) g.size (Ks.keyPhase N sk g.toPMat i r)
+        = m2 * σ i * ((2 : Ks.R N) ^ g.base2k) ^ (g.size - (r + 1) * g.dsize) + E i r) :
+    ∃ res, cmuxAssign big128 N rb r a g res0 tmp0 = .ok res ∧
+      CmuxSpec N rb (r.getD 0 []).length g sk m2 σ E ((List.range (g.rank + 1)).map (fun i => vecSubAssignW w64 (r.getD i []) (a.getD i []))) a res := by
+  have hg' := hg
+  simp only [Bool.and_eq_true, beq_iff_eq] at hg'
+  obtain ⟨⟨⟨⟨_, _⟩, hrb⟩, _⟩, has⟩ := hg'
+  obtain ⟨res, h1, h2⟩ := cmuxTail_total big128 rb (r.getD 0 []).length _ a g res0 tmp0 sk X Y hrb hgb1 hgb hX0 hY0 hH hPb
+    (shapeOk_limbs N _ _ a has) hab m2 σ E hd hN hn haD h0 ht hM hS hkey
+  refine ⟨res, ?_, h2⟩
+  unfold cmuxAssign
+  simp only [hg, Bool.not_true, Bool.false_eq_true, if_false]
+  exact h1
+
+example (m2 : Ks.R 1) (σ : ℕ → Ks.R 1) : ∃ res, cmuxAssign false 1 4 ([[[1], [2], [3]], [[0], [1], [0]]] : List Col) ([[[0], [0], [1]], [[0], [0], [0]]] : List Col) staleG (zeroCols 1 2 4) (zeroCols 1 2 4) = .ok res ∧ C02L.GWF 1 (Ks.mkCt 4 1 res) := by
+  obtain ⟨res, h1, h2, _⟩ := cmux_assign_decrypts (N := 1) false 4 ([[[1], [2], [3]], [[0], [1], [0]]] : List Col) ([[[0], [0], [1]], [[0], [0], [0]]] : List Col) staleG (zeroCols 1 2 4) (zeroCols 1 2 4) [[1]] (2 ^ 60) (2 ^ 60)
+    (by decide) (by decide) (by decide) (by decide) (by decide) (by decide) (by decide) (by decide)
+    m2 σ (fun i r => Gadget.val ((2 : Ks.R 1) ^ staleG.base2k) staleG.size (Ks.keyPhase 1 [[1]] staleG.toPMat i r)
+                    - m2 * σ i * ((2 : Ks.R 1) ^ staleG.base2k) ^ (staleG.size - (r + 1) * staleG.dsize))
+    (by decide) (by decide) rfl (by decide) (by decide) (by decide) (Ks.entry_length staleG.toPMat 1 rfl (by decide)) (by decide)
+    (by intro i _ r _; exact (add_sub_cancel _ _).symm)
+  exact ⟨res, h1, h2⟩
+
+/-- **`cmux_assign_neg_decrypts`** — `Cmux::cmux_assign_neg(res, a, s)`: `d = a − res` in a temporary of `max(res.size, a.size)` limbs, added
+operand `res`. -/
+theorem cmux_assign_neg_decrypts {N : Nat} (big128 : Bool) (rb : Nat) (r a : List Col) (g : EpGGSW) (res0 tmp0 : List Col) (sk : List Poly)
+    (X Y : Int)
+    (hg : (g.n == N && g.wf && rb == g.base2k && shapeOk N (g.rank + 1) (r.getD 0 []).length r
+       && shapeOk N (g.rank + 1) (a.getD 0 []).length a) = true)
+    (hgb1 : 1 ≤ g.base2k) (hgb : g.base2k ≤ 62)
+    (hX0 : 0 ≤ X) (hY0 : 0 ≤ Y) (hH : X + Y + 8 ≤ 2 ^ (bitsOf big128 - 2))
+    (hPb : ∀ c ∈ epInternal (glweSubSameRank N (max (r.getD 0 []).length (a.getD 0 []).length) a r) g res0 tmp0, ∀ l ∈ c, ∀ x ∈ l, |x| ≤ X)
+    (hrb' : ∀ c ∈ r, ∀ l ∈ c, ∀ x ∈ l, |x| ≤ Y)
+    (m2 : Ks.R N) (σ : ℕ → Ks.R N) (E : ℕ → ℕ → Ks.R N)
+    (hd : 1 ≤ g.dsize) (hN : 0 < N) (hn : g.n = N)
+    (haD : shapeOk g.n (g.rank + 1) ((glweSubSameRank N (max (r.getD 0 []).length (a.getD 0 []).length) a r).getD 0 []).length
+      (glweSubSameRank N (max (r.getD 0 []).length (a.getD 0 []).length) a r) = true)
+    (h0 : shapeOk g.n (g.rank + 1) g.size res0 = true) (ht : shapeOk g.n (g.rank + 1) g.size tmp0 = true)
+    (hM : ∀ j q, (g.toPMat.entry j q).length = N) (hS : g.dnum * g.dsize ≤ g.size)
+    (hkey : ∀ i, i < g.rank + 1 → ∀ r, r < g.dnum →
+      Gadget.val ((2 : Ks.R N) ^ g.base2k) g.size (Ks.keyPhase N sk g.toPMat i r)
+        = m2 * σ i * ((2 : Ks.R N) ^ g.base2k) ^ (g.size - (r + 1) * g.dsize) + E i r) :
+    ∃ res, cmuxAssignNeg big128 N rb r a g res0 tmp0 = .ok res ∧
+      CmuxSpec N rb (r.getD 0 []).length g sk m2 σ E (glweSubSameRank N (max (r.getD 0 []).length (a.getD 0 []).length) a r) r res := by
+  have hg' := hg
+  simp only [Bool.and_eq_true, beq_iff_eq] at hg'
+  obtain ⟨⟨⟨⟨_, _⟩, hrb⟩, hrs⟩, _⟩ := hg'
+  obtain ⟨res, h1, h2⟩ := cmuxTail_total big128 rb (r.getD 0 []).length _ r g res0 tmp0 sk X Y hrb hgb1 hgb hX0 hY0 hH hPb
+    (shapeOk_limbs N _ _ r hrs) hrb' m2 σ E hd hN hn haD h0 ht hM hS hkey
+  refine ⟨res, ?_, h2⟩
+  unfold cmuxAssignNeg
+  simp only [hg, Bool.not_true, Bool.false_eq_true, if_false]
+  exact h1
+
+example (m2 : Ks.R 1) (σ : ℕ → Ks.R 1) : ∃ res, cmuxAssignNeg true 1 4 ([[[1], [2], [3]], [[0], [1], [0]]] : List Col) ([[[0], [0], [1]], [[0], [0], [0]]] : List Col) staleG (zeroCols 1 2 4) (zeroCols 1 2 4) = .ok res ∧ C02L.GWF 1 (Ks.mkCt 4 1 res) := by
+  obtain ⟨res, h1, h2, _⟩ := cmux_assign_neg_decrypts (N := 1) true 4 ([[[1], [2], [3]], [[0], [1], [0]]] : List Col) ([[[0], [0], [1]], [[0], [0], [0]]] : List Col) staleG (zeroCols 1 2 4) (zeroCols 1 2 4) [[1]] (2 ^ 60) (2 ^ 60)
+    (by decide) (by decide) (by decide) (by decide) (by decide) (by decide) (by decide) (by decide)
+    m2 σ (fun i r => Gadget.val ((2 : Ks.R 1) ^ staleG.base2k) staleG.size (Ks.keyPhase 1 [[1]] staleG.toPMat i r)
+                    - m2 * σ i * ((2 : Ks.R 1) ^ staleG.base2k) ^ (staleG.size - (r + 1) * staleG.dsize))
+    (by decide) (by decide) rfl (by decide) (by decide) (by decide) (Ks.entry_length staleG.toPMat 1 rfl (by decide)) (by decide)
+    (by intro i _ r _; exact (add_sub_cancel _ _).symm)
+  exact ⟨res, h1, h2⟩
+
+/-- **`cswap_decrypts`** — `Cswap::cswap`, BOTH outputs, END TO END, both accumulator widths, every `dsize ≥ 1`, every rank
+(`Core.CswapSpec`, `d = res_b − res_a`): `2^(bg·S)·phase(res_a') = 2^(rb·sa)·(epValue(d) + phase(res_a)) + En + 2^(…)Q` and
+`2^(bg·S)·phase(res_b') = 2^(rb·sb)·(phase(res_b) − epValue(d)) + En' + 2^(…)Q'`, `‖En‖_∞, ‖En'‖_∞ ≤ (1 + Σ‖s_i‖₁)·normTol`; with
+`epValue(d) = m2·Σσ_i·usedVal(d_i) + gadget error` this is `cswap_swaps` on the executed model (`vec_znx_big_add_small_into` /
+`vec_znx_big_sub_small_a` exact under head-room: `Core.bigAddSmallInto_exact_w`, `Core.bigSubSmallA_exact_w`, i64 and i128). -/
+theorem cswap_decrypts {N : Nat} (big128 : Bool) (rb : Nat) (ra rbb : List Col) (g : EpGGSW) (res0 tmp0 : List Col) (sk : List Poly) (X Y : Int)
+    (hg : (g.n == N && g.wf && shapeOk N (g.rank + 1) (ra.getD 0 []).length ra && shapeOk N (g.rank + 1) (rbb.getD 0 []).length rbb) = true)
+    (hrb : rb = g.base2k) (hgb1 : 1 ≤ g.base2k) (hgb : g.base2k ≤ 62)
+    (hX0 : 0 ≤ X) (hY0 : 0 ≤ Y) (hH : X + Y + 8 ≤ 2 ^ (bitsOf big128 - 2))
+    (hPb : ∀ c ∈ epInternal (glweSubSameRank N (max (ra.getD 0 []).length (rbb.getD 0 []).length) rbb ra) g res0 tmp0, ∀ l ∈ c, ∀ x ∈ l, |x| ≤ X)
+    (hrab : ∀ c ∈ ra, ∀ l ∈ c, ∀ x ∈ l, |x| ≤ Y) (hrbb : ∀ c ∈ rbb, ∀ l ∈ c, ∀ x ∈ l, |x| ≤ Y)
+    (m2 : Ks.R N) (σ : ℕ → Ks.R N) (E : ℕ → ℕ → Ks.R N)
+    (hd : 1 ≤ g.dsize) (hN : 0 < N) (hn : g.n = N)
+    (haD : shapeOk g.n (g.rank + 1) ((glweSubSameRank N (max (ra.getD 0 []).length (rbb.getD 0 []).length) rbb ra).getD 0 []).length
+      (glweSubSameRank N (max (ra.getD 0 []).length (rbb.getD 0 []).length) rbb ra) = true)
+    (h0 : shapeOk g.n (g.rank + 1) g.size res0 = true) (ht : shapeOk g.n (g.rank + 1) g.size tmp0 = true)
+    (hM : ∀ j q, (g.toPMat.entry j q).length = N) (hS : g.dnum * g.dsize ≤ g.size)
+    (hkey : ∀ i, i < g.rank + 1 → ∀ r, r < g.dnum →
+      Gadget.val ((2 : Ks.R N) ^ g.base2k) g.size (Ks.keyPhase N sk g.toPMat i r)
+        = m2 * σ i * ((2 : Ks.R N) ^ g.base2k) ^ (g.size - (r + 1) * g.dsize) + E i r) :
+    ∃ xa xb, cswap big128 N rb ra rbb g res0 tmp0 = .ok (xa, xb) ∧
+      CswapSpec N rb g sk m2 σ E ra rbb (glweSubSameRank N (max (ra.getD 0 []).length (rbb.getD 0 []).length) rbb ra) xa xb :=
+  cswap_total big128 rb ra rbb g res0 tmp0 sk X Y hg hrb hgb1 hgb hX0 hY0 hH hPb hrab hrbb m2 σ E hd hN hn haD h0 ht hM hS hkey
+
+example (m2 : Ks.R 1) (σ : ℕ → Ks.R 1) : ∃ xa xb, cswap true 1 4 ([[[1], [2], [3]], [[0], [1], [0]]] : List Col) ([[[0], [0], [1]], [[0], [0], [0]]] : List Col) staleG (zeroCols 1 2 4) (zeroCols 1 2 4) = .ok (xa, xb) ∧
+    C02L.GWF 1 (Ks.mkCt 4 1 xa) ∧ C02L.GWF 1 (Ks.mkCt 4 1 xb) := by
+  obtain ⟨xa, xb, h1, h2, h3, _⟩ := cswap_decrypts (N := 1) true 4 ([[[1], [2], [3]], [[0], [1], [0]]] : List Col) ([[[0], [0], [1]], [[0], [0], [0]]] : List Col) staleG (zeroCols 1 2 4) (zeroCols 1 2 4) [[1]] (2 ^ 60) (2 ^ 60)
+    (by decide) rfl (by decide) (by decide) (by decide) (by decide) (by decide) (by decide) (by decide) (by decide)
+    m2 σ (fun i r => Gadget.val ((2 : Ks.R 1) ^ staleG.base2k) staleG.size (Ks.keyPhase 1 [[1]] staleG.toPMat i r)
+                    - m2 * σ i * ((2 : Ks.R 1) ^ staleG.base2k) ^ (staleG.size - (r + 1) * staleG.dsize))
+    (by decide) (by decide) rfl (by decide) (by decide) (by decide) (Ks.entry_length staleG.toPMat 1 rfl (by decide)) (by decide)
+    (by intro i _ r _; exact (add_sub_cancel _ _).symm)
+  exact ⟨xa, xb, h1, h2, h3⟩
+
+/-! ## Head-room derived from digit bounds; admissible shapes -/
+
+/-- **`ep_headroom`** — the accumulator head-room of the external product DERIVED from digit bounds: input digits `|a| ≤ Da`, GGSW digits
+`|g| ≤ Dm` ⇒ every coefficient of the executed `glwe_external_product_internal` is bounded by `dsize·((rank+1)·dnum)·N·Da·Dm`
+(`Core.prodBound`; each of the `dsize` passes adds one vector-matrix product of `(rank+1)·dnum` negacyclic products). -/
+theorem ep_headroom (N : Nat) (a : List Col) (g : EpGGSW) (res0 tmp0 : List Col) (Da Dm : Int) (hDa : 0 ≤ Da) (hDm : 0 ≤ Dm)
+    (hd : 1 ≤ g.dsize) (hn : g.n = N)
+    (ha : shapeOk g.n (g.rank + 1) (a.getD 0 []).length a = true)
+    (h0 : shapeOk g.n (g.rank + 1) g.size res0 = true) (ht : shapeOk g.n (g.rank + 1) g.size tmp0 = true)
+    (hab : ∀ c ∈ a, ∀ l ∈ c, ∀ x ∈ l, |x| ≤ Da)
+    (hgb : ∀ row ∈ g.cells, ∀ c ∈ row, ∀ l ∈ c, ∀ x ∈ l, |x| ≤ Dm) :
+    ∀ c ∈ epInternal a g res0 tmp0, ∀ l ∈ c, ∀ x ∈ l, |x| ≤ prodBound g.dsize (g.rank + 1) g.dnum N Da Dm :=
+  epInternal_bound N a g res0 tmp0 Da Dm hDa hDm hd hn ha h0 ht hab hgb
+
+example : ∀ c ∈ epInternal [[[1], [2], [3]], [[0], [1], [0]]] staleG (zeroCols 1 2 4) (zeroCols 1 2 4), ∀ l ∈ c, ∀ x ∈ l,
+    |x| ≤ prodBound 3 2 1 1 3 1 :=
+  ep_headroom 1 _ staleG _ _ 3 1 (by decide) (by decide) (by decide) rfl (by decide) (by decide) (by decide) (by decide) (by decide)
+
+/-- the crate's parameter sets are admissible (balanced digits `2^(b−1)`, added operand `< 2^b`): bench core (`N = 4096`, `b = 18`, rank 1,
+`dnum = 3`), circuit bootstrapping / BDD (`N = 1024`, `b = 13`, rank 2, `dnum ≤ 4`) on the i64 accumulator; CKKS (`N = 4096`, `b = 52`, rank 1,
+`dnum ≤ 16`) on the i128 accumulator — and not on i64 -/
+example : prodAdmissible 64 1 2 3 4096 (2 ^ 17) (2 ^ 17) (2 ^ 18) ∧ prodAdmissible 64 1 3 4 1024 (2 ^ 12) (2 ^ 12) (2 ^ 13) ∧
+    prodAdmissible 128 1 2 16 4096 (2 ^ 51) (2 ^ 51) (2 ^ 52) ∧ ¬ prodAdmissible 64 1 2 16 4096 (2 ^ 51) (2 ^ 51) (2 ^ 52) := by decide
+
+/-- **`ep_decrypts_of_digits`** — `ep_decrypts` with the head-room derived: digit bounds and ONE explicit admissible-shape inequality
+(`Core.prodAdmissible`) replace the accumulator hypothesis. -/
+theorem ep_decrypts_of_digits {N : Nat} (big128 : Bool) (rb rs ab : Nat) (a aConv : List Col) (g : EpGGSW) (sk : List Poly) (Da Dm : Int)
+    (hg : (g.n == N && g.wf && shapeOk N (g.rank + 1) (a.getD 0 []).length a) = true)
+    (hc : epConvert N a ab g = some aConv)
+    (hrb1 : 1 ≤ rb) (hrb : rb ≤ 62) (hgb1 : 1 ≤ g.base2k) (hgb : g.base2k ≤ 62)
+    (hDa : 0 ≤ Da) (hDm : 0 ≤ Dm)
+    (hadm : prodAdmissible (bitsOf big128) g.dsize (g.rank + 1) g.dnum N Da Dm 0)
+    (hab : ∀ c ∈ aConv, ∀ l ∈ c, ∀ x ∈ l, |x| ≤ Da)
+    (hgd : ∀ row ∈ g.cells, ∀ c ∈ row, ∀ l ∈ c, ∀ x ∈ l, |x| ≤ Dm)
+    (m2 : Ks.R N) (σ : ℕ → Ks.R N) (E : ℕ → ℕ → Ks.R N)
+    (hd : 1 ≤ g.dsize) (hN : 0 < N) (hn : g.n = N)
+    (haC : shapeOk g.n (g.rank + 1) (aConv.getD 0 []).length aConv = true)
+    (hM : ∀ j q, (g.toPMat.entry j q).length = N) (hS : g.dnum * g.dsize ≤ g.size)
+    (hkey : ∀ i, i < g.rank + 1 → ∀ r, r < g.dnum →
+      Gadget.val ((2 : Ks.R N) ^ g.base2k) g.size (Ks.keyPhase N sk g.toPMat i r)
+        = m2 * σ i * ((2 : Ks.R N) ^ g.base2k) ^ (g.size - (r + 1) * g.dsize) + E i r) :
+    ∃ res, glweExternalProduct big128 N rb rs a ab g = .ok res ∧ C02L.GWF N (Ks.mkCt rb N res) ∧
+      (∀ c ∈ res, ∀ l ∈ c, ∀ x ∈ l, |x| ≤ 2 ^ rb - 1) ∧
+      ∃ En Q : Poly, En.length = N ∧ Q.length = N ∧
+        normInf En ≤ (1 + C02L.snorm (min g.rank sk.length) sk) * C02.normTol (rb * rs) (g.base2k * g.size) ∧
+        (2 : Ks.R N) ^ (g.base2k * g.size) * Ks.ι N (C02L.valP rb N (Core.Ops.phase sk (Ks.mkCt rb N res)))
+          = (2 : Ks.R N) ^ (rb * rs) * epValue N sk aConv g ((2 : Ks.R N) ^ g.base2k) m2 σ E
+            + Ks.ι N En + (2 : Ks.R N) ^ (rb * rs + g.base2k * g.size) * Ks.ι N Q := by
+  have hz : shapeOk g.n (g.rank + 1) g.size (zeroCols N (g.rank + 1) g.size) = true := by rw [hn]; exact zeroCols_shape _ _ _
+  have hacc := ep_headroom N aConv g _ _ Da Dm hDa hDm hd hn haC hz hz hab hgd
+  unfold prodAdmissible at hadm
+  exact ep_decrypts big128 rb rs ab a aConv g sk _ hg hc hrb1 hrb hgb1 hgb (prodBound_nonneg _ _ _ _ _ _ hDa hDm) (by linarith) hacc
+    m2 σ E hd hN hn haC hM hS hkey
+
+example (m2 : Ks.R 1) (σ : ℕ → Ks.R 1) :
+    ∃ res, glweExternalProduct true 1 4 4 [[[1], [2], [3]], [[0], [1], [0]]] 4 staleG = .ok res ∧ C02L.GWF 1 (Ks.mkCt 4 1 res) := by
+  obtain ⟨res, h1, h2, _⟩ := ep_decrypts_of_digits (N := 1) true 4 4 4 [[[1], [2], [3]], [[0], [1], [0]]] [[[1], [2], [3]], [[0], [1], [0]]] staleG [[1]]
+    3 1 (by decide) (by decide) (by decide) (by decide) (by decide) (by decide) (by decide) (by decide) (by decide) (by decide) (by decide)
+    m2 σ (fun i r => Gadget.val ((2 : Ks.R 1) ^ staleG.base2k) staleG.size (Ks.keyPhase 1 [[1]] staleG.toPMat i r)
+                    - m2 * σ i * ((2 : Ks.R 1) ^ staleG.base2k) ^ (staleG.size - (r + 1) * staleG.dsize))
+    (by decide) (by decide) rfl (by decide) (Ks.entry_length staleG.toPMat 1 rfl (by decide)) (by decide)
+    (by intro i _ r _; exact (add_sub_cancel _ _).symm)
+  exact ⟨res, h1, h2⟩
+
+/-- **`expand_cell_decrypts`** — the add step of the row expansion composed end to end (`ggsw_expand_rows_internal`, hence `ggsw_from_gglwe`,
+`ggsw_keyswitch`, `ggsw_automorphism`): every cell `c` (output column `c+1`) that `Core.expandRowCols` returns is well formed and
+`2^(bt·S)·phase(cell) = 2^(rb·rs)·(s_c·Me + Σ_i(Σ_r digit·E − dropped − β^S·head)) + En + 2^(…)·Q`, `‖En‖_∞ ≤ (1+Σ‖s_i‖₁)·normTol`, where
+`Me = body + Σ_i σ_i·usedVal(a_i)` is the row's phase: the same message in every column.  Both accumulator widths, any result radix; the
+body is added exactly under the head-room `X + Y + 8 ≤ 2^62 / 2^126` (`X` from `relin_headroom`-type digit bounds). -/
+theorem expand_cell_decrypts (N : Nat) (big128 : Bool) (rb rs : Nat) (sk : List Poly) (a0 : Col) (aDft : List Col) (t : ToGGSWKey)
+    (cells : List (List Col)) (c : Nat) (cell : List Col)
+    (hcells : expandRowCols big128 N rb rs a0 aDft t = some cells) (hcell : cells[c]? = some cell)
+    (X Y : Int) (sc Me : Ks.R N) (σ : ℕ → Ks.R N) (E : ℕ → ℕ → Ks.R N)
+    (hrb1 : 1 ≤ rb) (hrb : rb ≤ 62) (ht1 : 1 ≤ t.base2k) (ht62 : t.base2k ≤ 62)
+    (hX0 : 0 ≤ X) (hY0 : 0 ≤ Y) (hH : X + Y + 8 ≤ 2 ^ (bitsOf big128 - 2))
+    (hPb : ∀ col ∈ expandProd N aDft t c, ∀ l ∈ col, ∀ x ∈ l, |x| ≤ X) (ha0 : C02L.LimbsN N a0) (ha0b : ∀ l ∈ a0, ∀ x ∈ l, |x| ≤ Y)
+    (hd : 1 ≤ t.dsize) (hN : 0 < N) (hn : t.n = N) (hM : ∀ j q, ((t.at c).toPMat.entry j q).length = N)
+    (hS : t.dnum * t.dsize ≤ t.size) (hsk : c < sk.length) (hsc : sc = Ks.ι N (sk.getD c []))
+    (hkey : ∀ i, i < t.rank → ∀ r, r < t.dnum →
+      Gadget.val ((2 : Ks.R N) ^ t.base2k) t.size (Ks.keyPhase N sk (t.at c).toPMat i r)
+        = sc * σ i * ((2 : Ks.R N) ^ t.base2k) ^ (t.size - (r + 1) * t.dsize) + E i r)
+    (hrow : colValS N ((2 : Ks.R N) ^ t.base2k) t.size a0 + expandUsed N aDft t ((2 : Ks.R N) ^ t.base2k) σ = Me) :
+    C02L.GWF N (Ks.mkCt rb N cell) ∧ (∀ col ∈ cell, ∀ l ∈ col, ∀ x ∈ l, |x| ≤ 2 ^ rb - 1) ∧
+      ∃ En Q : Poly, En.length = N ∧ Q.length = N ∧
+        normInf En ≤ (1 + C02L.snorm (min t.rank sk.length) sk) * C02.normTol (rb * rs) (t.base2k * t.size) ∧
+        (2 : Ks.R N) ^ (t.base2k * t.size) * Ks.ι N (C02L.valP rb N (Core.Ops.phase sk (Ks.mkCt rb N cell)))
+          = (2 : Ks.R N) ^ (rb * rs) * (sc * Me + expandErr N sk aDft t c ((2 : Ks.R N) ^ t.base2k) E)
+            + Ks.ι N En + (2 : Ks.R N) ^ (rb * rs + t.base2k * t.size) * Ks.ι N Q := by
+  obtain ⟨_, hacc⟩ := expandRowCols_accumulator big128 N rb rs a0 aDft t cells hcells
+  obtain ⟨hc, hm⟩ := hacc c cell hcell
+  obtain ⟨cell', h1, h2, h3, h4⟩ := expand_cell_total N big128 rb rs sk a0 aDft t c X Y sc Me σ E hrb1 hrb ht1 ht62 hX0 hY0 hH hPb ha0 ha0b
+    hd hN hn hM hS hc hsk hsc hkey hrow
+  rw [hm] at h1
+  injection h1 with h1
+  subst h1
+  exact ⟨h2, h3, h4⟩
+
+example (σ : ℕ → Ks.R 1) : C02L.GWF 1 (Ks.mkCt 4 1 [[[1], [0], [0]], [[3], [1], [0]]]) := by
+  have h := expand_cell_decrypts 1 false 4 3 [[1]] [[1], [0]] [[[2], [1]]] exT [[[[1], [0], [0]], [[3], [1], [0]]]] 0 [[[1], [0], [0]], [[3], [1], [0]]]
+    (by decide +kernel) rfl (2 ^ 60) (2 ^ 60) (Ks.ι 1 [1])
+    (colValS 1 ((2 : Ks.R 1) ^ exT.base2k) exT.size [[1], [0]] + expandUsed 1 [[[2], [1]]] exT ((2 : Ks.R 1) ^ exT.base2k) σ) σ
+    (fun i r => Gadget.val ((2 : Ks.R 1) ^ exT.base2k) exT.size (Ks.keyPhase 1 [[1]] (exT.at 0).toPMat i r)
+      - Ks.ι 1 [1] * σ i * ((2 : Ks.R 1) ^ exT.base2k) ^ (exT.size - (r + 1) * exT.dsize))
+    (by decide) (by decide) (by decide) (by decide) (by decide) (by decide) (by decide) (by decide +kernel) (by decide) (by decide)
+    (by decide) (by decide) rfl (Ks.entry_length (exT.at 0).toPMat 1 rfl (by decide)) (by decide) (by decide) rfl
+    (by intro i _ r _; exact (add_sub_cancel _ _).symm) rfl
+  exact h.1
+
 end C04
